@@ -1074,6 +1074,24 @@ pub fn check_c06(ctx: &RunCtx, out: &mut Outcome) {
         out.skipped = Some("run_rejects_graph(C03 territory)".into());
         return;
     }
+    let has_broken = spec.cmd_files.iter().any(|f| f.broken);
+    if exit.code == Some(2) && has_broken {
+        // a command file with the x bit that cannot be executed (its interpreter does not exist): no clause of the
+        // statement covers it, so aborting loudly is tolerated - but nothing may be started after the failed spawn
+        let msg = errdoc.as_ref().map(|e| e["message"].as_str().unwrap_or("").to_string()).unwrap_or_else(|| tr.stderr_str());
+        let is_broken = |c: &str, t: &str| spec.cmd_files.iter().any(|f| f.broken && f.command == c && f.target == t);
+        if let Some(k) = tr.spawn_reqs.iter().position(|(_, c, t)| is_broken(c, t)) {
+            if msg.contains("No such file") || msg.contains("os error 2") {
+                for (_, c, t) in &tr.spawn_reqs[k + 1..] {
+                    out.violate("later_not_started", "started_after_spawn_failure", format!("'{}' for '{}' was started after the spawn of a command file that cannot be executed had failed", c, t));
+                }
+                out.fault("command_file_that_cannot_be_executed", 1);
+                out.probe("spawn_failure_aborted_loudly", 1);
+                out.nontrivial = true;
+                return;
+            }
+        }
+    }
     if exit.code == Some(2) || exit.code.is_none() {
         let msg = errdoc.as_ref().map(|e| e["message"].as_str().unwrap_or("").to_string()).unwrap_or_else(|| tr.stderr_str());
         let class = if msg.contains("channel closed") { "channel_closed" } else { "fatal" };
@@ -1115,6 +1133,15 @@ pub fn check_c06(ctx: &RunCtx, out: &mut Outcome) {
             for (t, r) in g {
                 let d = definition(spec, c, t);
                 let hs: Vec<&&crate::rundrv::HelperRec> = started.iter().filter(|h| h.target == *t).collect();
+                // a command file with the x bit that cannot be executed: a tool that carries on may call it
+                // not_executable or a code-less error - either way it is a failure of the run
+                let broken_pair = spec.cmd_files.iter().any(|f| f.broken && f.command == *c && f.target == *t);
+                if broken_pair && hs.is_empty() && (r.status == "not_executable" || (r.status == "error" && r.code.is_none())) {
+                    static_fail_possible = true;
+                    static_fail_reported = true;
+                    out.fault("command_file_that_cannot_be_executed", 1);
+                    continue;
+                }
                 // truthfulness against the helper trace
                 match r.status.as_str() {
                     "success" => {
@@ -1233,7 +1260,7 @@ pub fn check_c06(ctx: &RunCtx, out: &mut Outcome) {
 fn static_fail_possible_in_group(spec: &WorldSpec, c: &str, g: &BTreeMap<String, PairResult>, fou: bool) -> bool {
     g.keys().any(|t| {
         let d = definition(spec, c, t);
-        d == Def::NotExec || (d == Def::Undefined && fou)
+        d == Def::NotExec || (d == Def::Undefined && fou) || spec.cmd_files.iter().any(|f| f.broken && f.command == c && f.target == *t)
     })
 }
 
@@ -1250,6 +1277,15 @@ impl Property for C06 {
     fn generate(&self, seed: u64, idx: usize, tier: Tier) -> Value {
         let mut sc = gen_c06(seed, idx, tier);
         clockify(&mut sc.spec, seed, "C06-clock", idx, 6);
+        {
+            // one scenario in twelve: one command file has the x bit but cannot be executed (own generator)
+            let mut brng = Rng::new(scenario_seed(seed, "C06-broken", idx));
+            let cands: Vec<usize> = (0..sc.spec.cmd_files.len()).filter(|&i| sc.spec.cmd_files[i].exec && !sc.spec.cmd_files[i].command.ends_with("__decoy")).collect();
+            if brng.chance(1, 12) && !cands.is_empty() && sc.script.env_actions.is_empty() {
+                let i = cands[brng.below(cands.len())];
+                sc.spec.cmd_files[i].broken = true;
+            }
+        }
         to_val(&sc)
     }
     fn execute(&self, v: &Value) -> Outcome {
